@@ -9,6 +9,7 @@ vector it returns is recorded with its (size, p), and the model is run on the re
 """
 import datetime
 import json
+import os
 from fractions import Fraction
 
 import numpy as np
@@ -84,17 +85,22 @@ def rand_val(rng, kind, S):
     raise ValueError(kind)
 
 
-def make_values(rng, skel, M, method, agree=False):
+def make_values(rng, skel, M, method, agree=False, S=None, kinds=None, n_fields=None):
     """values[j][i] = dict for triangle j, cell i. Mixture: scalar fields equal across triangles,
     sample fields arrays of one length. Linear: scalars, samples and length-1 arrays mixed freely."""
     fields = rng.sample(gen.FIELDS, rng.randrange(1, 4))
-    S = rng.choice([1, 2, 3, 5, 8])
+    S0 = rng.choice([1, 2, 3, 5, 8])
+    S = S or S0
+    if n_fields:
+        fields = rng.sample(gen.FIELDS, n_fields)
     plan = {}
     for f in fields:
         if method == "mixture":
             plan[f] = rng.choice(["int", "float", "farr", "farr", "iarr"])
         else:
             plan[f] = rng.choice(["int", "float", "farr", "iarr", "mixed", "mixed"])
+        if kinds:
+            plan[f] = rng.choice(kinds)
     vals = [[{} for _ in skel] for _ in range(M)]
     for i in range(len(skel)):
         for f in fields:
@@ -215,13 +221,22 @@ REFUSALS = ["len", "kind", "coord-date", "coord-meta", "coord-prev", "coord-prev
 NAMED = {"len", "kind", "coord-date", "coord-meta", "coord-prev", "scalar-unequal"}
 
 
-def one_case(rng, stream):
-    """returns dict(tris=[list of cells], weights, method, seed, flags...)"""
+def one_case(rng, stream, force=None):
+    """returns dict(tris=[list of cells], weights, method, seed, flags...). `force` (lesson streams): M, refusal,
+    late=True (the deviating triangle is the LAST one), method"""
+    force = force or {}
     refusal = rng.choice(REFUSALS) if stream == "refusal" else None
+    refusal = force.get("refusal", refusal)
+    if refusal is not None:
+        stream = "refusal"
     # coord-prev: INCREMENTAL triangles that differ only in one cell's prev_evaluation_date
-    kind, skel = skeleton(rng, "I" if refusal == "coord-prev" else None)
-    M = rng.choice([1, 2, 2, 3, 4])
-    method = rng.choice(["linear", "mixture"])
+    kind, skel = skeleton(rng, "I" if refusal == "coord-prev" else force.get("kind"))
+    M = force.get("M") or rng.choice([1, 2, 2, 3, 4])
+    method = force.get("method") or rng.choice(["linear", "mixture"])
+
+    def pick(lo):
+        """index of the triangle that deviates"""
+        return M - 1 if force.get("late") else rng.randrange(lo, M)
     if stream == "single-dict":                       # D17 (fixed): one triangle, dict weights
         M = 1
     if stream == "refusal":
@@ -262,14 +277,21 @@ def one_case(rng, stream):
 
     # ---- one deliberate cause of refusal ----
     if refusal == "len":
-        j = rng.randrange(M)
-        tris[j] = tris[j][:-1] if rng.random() < 0.5 else tris[j][1:]
+        j = pick(0)
+        if force.get("longer"):
+            # one MORE cell than the others (a further evaluation date of its last cell)
+            c = tris[j][-1]
+            later = c.evaluation_date + datetime.timedelta(days=365)
+            tris[j] = tris[j] + [IncrementalCell(c.period_start, c.period_end, c.evaluation_date, later, c.values, c.metadata)
+                                 if kind == "I" else c.replace(evaluation_date=later)]
+        else:
+            tris[j] = tris[j][:-1] if rng.random() < 0.5 else tris[j][1:]
     elif refusal == "kind":
         other = rng.choice([k for k in "CUI" if k != kind])
-        j = rng.randrange(1, M)
+        j = pick(1)
         tris[j] = build(other, skel, vals[j])
     elif refusal in ("coord-date", "coord-meta"):
-        j, i = rng.randrange(1, M), rng.randrange(n)
+        j, i = pick(1), rng.randrange(n)
         c = tris[j][i]
         if refusal == "coord-date":
             tris[j][i] = c.replace(evaluation_date=c.evaluation_date + datetime.timedelta(days=rng.choice([1, 31, 400])))
@@ -277,14 +299,14 @@ def one_case(rng, stream):
             tris[j][i] = c.derive_metadata(zz_blend="other")
     elif refusal == "coord-prev":
         # same length, same slices, periods and evaluation dates; one increment starts earlier
-        j, i = rng.randrange(1, M), rng.randrange(n)
-        if rng.random() < 0.3:
+        j, i = pick(1), rng.randrange(n)
+        if rng.random() < 0.3 and not force.get("late"):
             j = 0                                      # the odd one may also be the FIRST triangle
         c = tris[j][i]
         newprev = c.prev_evaluation_date - datetime.timedelta(days=rng.choice([1, 30, 183, 365]))
         tris[j][i] = IncrementalCell(c.period_start, c.period_end, newprev, c.evaluation_date, c.values, c.metadata)
     elif refusal == "fields":
-        j, i = rng.randrange(M), rng.randrange(n)
+        j, i = pick(0), rng.randrange(n)
         c = tris[j][i]
         if len(c.values) > 1 and rng.random() < 0.5:
             keep = list(c.values)[:-1]
@@ -292,7 +314,7 @@ def one_case(rng, stream):
         else:
             tris[j][i] = c.replace(values={**c.values, "extra_field": 1})
     elif refusal in ("scalar-unequal", "type-mixed", "type-intfloat", "none-value", "arrlen"):
-        j, i = rng.randrange(M), rng.randrange(n)
+        j, i = pick(0), rng.randrange(n)
         f = rng.choice(sorted(tris[0][i].values))
         if refusal == "scalar-unequal":
             for jj in range(M):
@@ -346,6 +368,376 @@ def one_case(rng, stream):
     return dict(tris=tris, weights=weights, method=meth_arg, base_method=method, seed=seed, M=M,
                 refusal=refusal, convex=convex and refusal is None, agree=agree, degenerate=degenerate,
                 as_list=as_list, wform=wform, kind=kind, S=S, n=n)
+
+
+# ---------------------------------------------------------------------------------------------------------
+# Generator lessons of seeded batch 4 (BUILD_GUIDE, round 6): a fixed quota of each input kind per run
+# ---------------------------------------------------------------------------------------------------------
+
+def skel_from_rows(rng, rows_per_meta, kind):
+    cells = []
+    for m, rows in rows_per_meta:
+        cells += gen.cells_from_layout(rng, rows, m, kind=kind, fields=["paid_loss"], vkind="int")
+    return list(Triangle(cells).cells)
+
+
+def regular_skel(rng, kind, n_slices=1, n_periods=2, n_lags=2, res=3):
+    metas = sorted(gen.rand_metas(rng, n_slices))
+    y = rng.randrange(2001, 2026)
+    rows = []
+    for i in range(n_periods):
+        ps = gen.add_months_int(datetime.date(y, 1, 1), i * res)
+        pe = gen.add_months_int(ps, res - 1, end=True)
+        rows.append((ps, pe, [gen.add_months_int(pe, k * res, end=True) for k in range(n_lags)]))
+    return skel_from_rows(rng, [(m, rows) for m in metas], kind)
+
+
+def assemble(rng, kind, skel, M, method, vals, S, weights, wform, seed, tags, convex=True, degenerate=None, **extra):
+    tris = [build(kind, skel, vals[j]) for j in range(M)]
+    for j in range(M):
+        if rng.random() < 0.5:
+            tris[j] = rng.sample(tris[j], len(tris[j]))
+    c = dict(tris=tris, weights=weights, method=method, base_method=method, seed=seed, M=M, refusal=None,
+             convex=convex, agree=False, degenerate=degenerate, as_list=True, wform=wform, kind=kind, S=S,
+             n=len(skel), tags=list(tags))
+    c.update(extra)
+    return c
+
+
+def zero_vector(rng, M, where):
+    """convex dyadic weights with EXACT zeros (leading / middle / trailing / several) and >= 2 positive entries"""
+    zeros = {"leading": {0}, "trailing": {M - 1}, "middle": {rng.randrange(1, M - 1)},
+             "several": {0, rng.randrange(1, M - 1)} if M >= 4 else {0},
+             "ends": {0, M - 1} if M >= 4 else {M - 1}}[where]
+    live = [j for j in range(M) if j not in zeros]
+    tot = 16
+    cuts = sorted(rng.sample(range(1, tot), len(live) - 1))
+    parts = [b - a for a, b in zip([0] + cuts, cuts + [tot])]
+    w = [0.0] * M
+    for j, p_ in zip(live, parts):
+        w[j] = p_ / tot
+    return w
+
+
+def weights_from_cols(rng, cols, form, M, n):
+    """cols[i][j] = weight of triangle j at cell i"""
+    if form == "list":
+        w = list(cols[0])
+        if rng.random() < 0.5:
+            w = [int(x) if float(x).is_integer() else x for x in w]      # int 0 next to floats
+        return w, "list"
+    ks = dict_keys(rng, M)
+    if form == "dict-global":
+        style = rng.choice(["list", "scalar", "2d", "np"])
+        return {ks[j]: {"list": [x], "scalar": x, "2d": np.array([[x]]), "np": np.array([x])}[style]
+                for j, x in enumerate(cols[0])}, "dict-global"
+    style = rng.choice(["list", "np", "2d"])
+    d = {}
+    for j in range(M):
+        row = [cols[i][j] for i in range(n)]
+        d[ks[j]] = {"list": row, "np": np.array(row), "2d": np.array([row])}[style]
+    return d, "dict-percell"
+
+
+def seed_for(rng, method):
+    return rng.choice([0, 1, 1234, rng.randrange(1 << 31)]) if method == "mixture" else rng.choice([None, 7])
+
+
+def large_cases(rng):
+    """lesson 1 — sample counts 40 / 256 / 1000 (and 80, 255, 257), >= 256 cells with per-cell weights"""
+    out = []
+    for S in (40, 256, 1000, rng.choice([80, 255, 257, 4096])):
+        for method in ("linear", "mixture"):
+            kind = rng.choice(["C", "U", "I"])
+            skel = regular_skel(rng, kind, n_slices=rng.choice([1, 2]), n_periods=rng.choice([1, 2]), n_lags=rng.choice([1, 2]))
+            M = rng.choice([2, 3, 3, 4])
+            vals, S_ = make_values(rng, skel, M, method, S=S, kinds=["farr", "iarr", "farr", "mixed" if method == "linear" else "int"],
+                                   n_fields=rng.choice([1, 2]))
+            form = rng.choice(["list", "dict-global", "dict-percell", "none"])
+            # linear: also weights that do not sum to 1 (always for 256, never for 1000)
+            convex = method == "mixture" or S == 1000 or (S != 256 and rng.random() < 0.5)
+            if not convex and form == "none":
+                form = "list"
+            if form == "none":
+                weights, wform, convex = None, "none", True
+            else:
+                cols = [dyadic_convex(rng, M) if convex else dyadic_any(rng, M) for _ in skel]
+                weights, wform = weights_from_cols(rng, cols, form, M, len(skel))
+            out.append(assemble(rng, kind, skel, M, method, vals, S, weights, wform, seed_for(rng, method),
+                                ["large", f"S={S if S in (40, 256, 1000) else 'other'}"] + ([] if convex else ["large-nonconvex"]),
+                                convex=convex))
+    # many cells: 26 x 10 (260) or 32 x 9 cells, per-cell weights (one column per cell)
+    for method in ("linear", "mixture"):
+        kind = rng.choice(["C", "U", "I"])
+        skel = regular_skel(rng, kind, n_slices=1, n_periods=rng.choice([26, 32]), n_lags=rng.choice([10, 9]), res=1)
+        M = rng.choice([2, 3])
+        vals, S = make_values(rng, skel, M, method, S=2, kinds=["farr", "iarr"], n_fields=1)
+        cols = [dyadic_convex(rng, M) for _ in skel]
+        weights, wform = weights_from_cols(rng, cols, "dict-percell", M, len(skel))
+        out.append(assemble(rng, kind, skel, M, method, vals, S, weights, wform, seed_for(rng, method), ["large", "cells>=256"]))
+    return out
+
+
+def overlap_cases(rng):
+    """lesson 2 — non-disjoint periods: cells of one slice that share period_start (or period_end) and the
+    evaluation date and differ only in the other period bound; per-cell weights tell them apart"""
+    out = []
+    for variant in ("same-start", "same-start", "same-end", "same-start"):
+        for method in ("linear", "mixture"):
+            kind = rng.choice(["C", "U", "I"])
+            y = rng.randrange(2001, 2026)
+            last = gen.month_end(y, 12)
+            evs = [gen.add_months_int(last, 6 * k, end=True) for k in range(rng.choice([1, 2]))]
+            spans = [(1, 3), (1, 6), (1, 12)] if variant == "same-start" else [(10, 12), (7, 12), (1, 12)]
+            if rng.random() < 0.5:
+                spans.append((4, 6))
+            rows = [(datetime.date(y, a, 1), gen.month_end(y, b), evs) for a, b in spans]
+            skel = skel_from_rows(rng, [(m, rows) for m in sorted(gen.rand_metas(rng, rng.choice([1, 2])))], kind)
+            M = rng.choice([2, 3])
+            vals, S = make_values(rng, skel, M, method, kinds=["farr", "iarr", "farr", "float" if method == "linear" else "farr"])
+            cols = [dyadic_convex(rng, M) for _ in skel]
+            weights, wform = weights_from_cols(rng, cols, rng.choice(["dict-percell", "dict-percell", "list"]), M, len(skel))
+            out.append(assemble(rng, kind, skel, M, method, vals, S, weights, wform, seed_for(rng, method), ["overlap", variant]))
+    return out
+
+
+def midmonth_cases(rng):
+    """lesson 3 — dates off the month grid: half-month periods (1st–15th, 16th–month end) evaluated on the 15th and at
+    the end of the same months: cells that agree in every month id"""
+    out = []
+    for method in ("linear", "mixture", rng.choice(["linear", "mixture"])):
+        kind = rng.choice(["C", "U", "I"])
+        y, m = rng.randrange(2001, 2026), rng.randrange(1, 13)
+        pts = []
+        for k in range(8):
+            yy, mm = divmod(y * 12 + m - 1 + k // 2, 12)
+            pts.append(datetime.date(yy, mm + 1, 15) if k % 2 == 0 else gen.month_end(yy, mm + 1))
+        rows = []
+        for i in range(rng.choice([2, 3, 4])):
+            pe = pts[i]
+            ps = pe.replace(day=1) if pe.day == 15 else pe.replace(day=16)
+            rows.append((ps, pe, [pts[i + k] for k in range(rng.choice([2, 3]))]))
+        skel = skel_from_rows(rng, [(mm_, rows) for mm_ in sorted(gen.rand_metas(rng, rng.choice([1, 2])))], kind)
+        M = rng.choice([2, 3])
+        vals, S = make_values(rng, skel, M, method, kinds=["farr", "iarr"])
+        cols = [dyadic_convex(rng, M) for _ in skel]
+        weights, wform = weights_from_cols(rng, cols, "dict-percell", M, len(skel))
+        out.append(assemble(rng, kind, skel, M, method, vals, S, weights, wform, seed_for(rng, method), ["mid-month"]))
+    return out
+
+
+def late_cases(rng):
+    """lesson 4 — >= 3 triangles: exact-zero weights in leading / middle / trailing positions with >= 2 positive ones
+    (both methods; list, global dict, per-cell dict whose zero moves from cell to cell); values in which only the LAST
+    of 4–5 triangles differs; named refusals whose cause sits in the LAST of 4–5 triangles"""
+    out = []
+    for where in ("leading", "middle", "trailing", "several", "ends"):
+        for method in ("linear", "mixture"):
+            kind = rng.choice(["C", "U", "I"])
+            skel = regular_skel(rng, kind, n_slices=rng.choice([1, 2]), n_periods=rng.choice([1, 2, 3]), n_lags=rng.choice([1, 2]))
+            M = rng.choice([3, 4, 5]) if where in ("leading", "middle", "trailing") else rng.choice([4, 5])
+            vals, S = make_values(rng, skel, M, method, S=rng.choice([8, 16, 40]),
+                                  kinds=["farr", "iarr"] + (["mixed", "mixed"] if method == "linear" else []))
+            form = rng.choice(["list", "dict-global", "dict-percell"])
+            if form == "dict-percell":
+                order = ["leading", "middle", "trailing"]
+                cols = [zero_vector(rng, M, where if i == 0 else rng.choice(order)) for i in range(len(skel))]
+            else:
+                cols = [zero_vector(rng, M, where)] * len(skel)
+            weights, wform = weights_from_cols(rng, cols, form, M, len(skel))
+            out.append(assemble(rng, kind, skel, M, method, vals, S, weights, wform, seed_for(rng, method),
+                                ["zero-weights", "zero-" + where, f"zero-{method}"]))
+    # only the last triangle differs in its values (the others are copies of the first)
+    for method in ("linear", "mixture"):
+        kind = rng.choice(["C", "U", "I"])
+        skel = regular_skel(rng, kind, n_slices=1, n_periods=2, n_lags=rng.choice([1, 2]))
+        M = rng.choice([4, 5])
+        vals, S = make_values(rng, skel, 2, method, S=rng.choice([5, 8]), kinds=["farr", "iarr"])
+        vals = [[{f: (v.copy() if isinstance(v, np.ndarray) else v) for f, v in cv.items()} for cv in vals[0]]
+                for _ in range(M - 1)] + [vals[1]]
+        w = [1 / 8] * (M - 1) + [1 - (M - 1) / 8]
+        weights, wform = weights_from_cols(rng, [w] * len(skel), rng.choice(["list", "dict-global"]), M, len(skel))
+        out.append(assemble(rng, kind, skel, M, method, vals, S, weights, wform, seed_for(rng, method), ["late-values"]))
+    # named refusals caused by the LAST of 4–5 triangles; scalar pattern a,a,b,b
+    for refusal, more in (("len", {}), ("len", {"longer": True}), ("kind", {"kind": "C"}), ("kind", {"kind": "I"}),
+                          ("kind", {"kind": "U"}), ("coord-date", {}), ("coord-meta", {}), ("coord-prev", {}),
+                          ("coord-prev", {}), ("scalar-unequal", {}), ("fields", {})):
+        for _ in range(20):
+            c = one_case(rng, "refusal", force={"refusal": refusal, "M": rng.choice([4, 5]), "late": True, **more})
+            if c["n"] >= 1 and c["refusal"] == refusal:
+                c["tags"] = ["late-refusal", "late-" + refusal + ("-longer" if more.get("longer") else "")]
+                out.append(c)
+                break
+    kind = rng.choice(["C", "U"])
+    skel = regular_skel(rng, kind)
+    vals = [[{"paid_loss": np.arange(3) * 1.0 + j, "reported_claims": 5 if j < 2 else 6} for _ in skel] for j in range(4)]
+    c = assemble(rng, kind, skel, 4, "mixture", vals, 3, [0.25] * 4, "list", 3, ["late-refusal", "late-scalar-aabb"], convex=False)
+    c["refusal"] = "scalar-unequal"
+    out.append(c)
+    return out
+
+
+def options_cases(rng):
+    """lesson 5 — every optional argument given (weights + method + seed) and none of them"""
+    out = []
+    for variant, method in (("all", "linear"), ("all", "mixture"), ("all", "mixture"), ("none", "mixture"), ("none", "mixture")):
+        kind = rng.choice(["C", "U", "I"])
+        skel = regular_skel(rng, kind, n_slices=rng.choice([1, 2]), n_periods=rng.choice([1, 2, 3]), n_lags=rng.choice([1, 2]))
+        M = rng.choice([1, 2, 3, 4])
+        vals, S = make_values(rng, skel, M, method, S=rng.choice([3, 8]))
+        if variant == "all":
+            cols = [dyadic_convex(rng, M) for _ in skel]
+            weights, wform = weights_from_cols(rng, cols, rng.choice(["list", "dict-global", "dict-percell"]), M, len(skel))
+            seed = rng.choice([0, 5, rng.randrange(1 << 31)])
+        else:
+            weights, wform, seed = None, "none", None
+        out.append(assemble(rng, kind, skel, M, method, vals, S, weights, wform, seed, ["options", "options-" + variant],
+                            omit_defaults=variant == "none"))
+    return out
+
+
+def revalue(rng, vals, method):
+    """other values of the same kinds and sizes (mixture: scalars stay equal across the triangles)"""
+    M, n = len(vals), len(vals[0])
+    out = [[{} for _ in range(n)] for _ in range(M)]
+    for i in range(n):
+        for f in vals[0][i]:
+            shared = None
+            for j in range(M):
+                v = vals[j][i][f]
+                if isinstance(v, np.ndarray):
+                    nv = np.array([rng.randrange(0, 4096) for _ in range(v.size)], dtype=v.dtype)
+                elif method == "mixture":
+                    if shared is None:
+                        shared = type(v)(rng.randrange(0, 4096))
+                    nv = shared
+                else:
+                    nv = type(v)(rng.randrange(0, 4096))
+                out[j][i][f] = nv
+    return out
+
+
+def twin_cases(rng):
+    """lesson 6 — blend of A-triangles, then of B-triangles with the SAME coordinates, field kinds, sizes, weights,
+    method and seed but other values (consecutive cases of one process)"""
+    out = []
+    for method in ("linear", "mixture", "mixture"):
+        kind = rng.choice(["C", "U", "I"])
+        skel = regular_skel(rng, kind, n_slices=rng.choice([1, 2]), n_periods=rng.choice([1, 2, 3]), n_lags=rng.choice([1, 2]))
+        M = rng.choice([2, 3])
+        vals, S = make_values(rng, skel, M, method, S=rng.choice([3, 8, 40]))
+        cols = [dyadic_convex(rng, M) for _ in skel]
+        weights, wform = weights_from_cols(rng, cols, rng.choice(["list", "dict-global", "dict-percell"]), M, len(skel))
+        seed = seed_for(rng, method)
+        out.append(assemble(rng, kind, skel, M, method, vals, S, weights, wform, seed, ["twin", "twin-first"]))
+        out.append(assemble(rng, kind, skel, M, method, revalue(rng, vals, method), S, weights, wform, seed,
+                            ["twin", "twin-second"]))
+    return out
+
+
+def derived_cases(rng):
+    """lesson 7 — the inputs are DERIVED (select / filter / clip / slicing / derive_fields) from parent triangles whose
+    cached accessors were all read and which were blended once; the derived ones are blended with default arguments"""
+    import c09_seq as SEQ
+    out = []
+    for how in ("select", "filter-slice", "clip-eval", "slice-int", "derive-fields", "select"):
+        method = rng.choice(["linear", "mixture"])
+        kind = rng.choice(["C", "U", "I"])
+        skel = regular_skel(rng, kind, n_slices=2, n_periods=rng.choice([2, 3]), n_lags=rng.choice([2, 3]))
+        M = rng.choice([2, 3])
+        vals, S = make_values(rng, skel, M, method, S=rng.choice([3, 8]), kinds=["farr", "iarr"], n_fields=rng.choice([2, 3]))
+        parents = [Triangle(build(kind, skel, vals[j])) for j in range(M)]
+        for p_ in parents:
+            SEQ.read_accessors(p_)
+            accessors(p_)
+        call(blend, parents, method=method, seed=3)
+        keep_meta = skel[-1].metadata
+        cut_e = sorted({c.evaluation_date for c in skel})[len({c.evaluation_date for c in skel}) // 2]
+        first_field = sorted(vals[0][0])[0]
+        f = {"select": lambda t: t.select([first_field]),
+             "filter-slice": lambda t: t.filter(lambda c: c.metadata == keep_meta),
+             "clip-eval": lambda t: t.clip(max_eval=cut_e),
+             "slice-int": lambda t: t[1:],
+             "derive-fields": lambda t: t.derive_fields(**{first_field: lambda c: c[first_field] * 2})}[how]
+        derived = [f(p_) for p_ in parents]
+        n = len(derived[0])
+        if n == 0:
+            continue
+        variant = rng.choice(["defaults", "defaults", "weights"])
+        if variant == "defaults":
+            method, weights, wform, seed = "mixture" if method == "mixture" else "linear", None, "none", None
+        else:
+            cols = [dyadic_convex(rng, M) for _ in range(n)]
+            weights, wform = weights_from_cols(rng, cols, rng.choice(["list", "dict-percell"]), M, n)
+            seed = seed_for(rng, method)
+        out.append(dict(tris=[list(t.cells) for t in derived], inner=derived, weights=weights, method=method,
+                        base_method=method, seed=seed, M=M, refusal=None, convex=True, agree=False, degenerate=None,
+                        as_list=True, wform=wform, kind=kind, S=S, n=n, omit_defaults=True,
+                        tags=["derived", "derived-" + how, "derived-" + variant]))
+    return out
+
+
+def falsy_cases(rng):
+    """lesson 8 — falsy weights and values everywhere: scalar 0 / 0.0 and all-zero arrays in every cell of every
+    triangle, int 0 / float 0.0 weights, seed 0, limit 0 and falsy details in every slice"""
+    from bermuda import Metadata
+    out = []
+    for variant in ("scalar-0", "scalar-0.0", "zero-arrays", "weights-int-0", "meta-falsy", "single-weight-1"):
+        for method in ("linear", "mixture"):
+            kind = rng.choice(["C", "U", "I"])
+            if variant == "meta-falsy":
+                metas = sorted([Metadata(per_occurrence_limit=0, details={"flag": False, "n": 0, "s": ""}, country="",
+                                         loss_details={"x": 0.0}), Metadata(per_occurrence_limit=0.0, currency="")])
+                y = rng.randrange(2001, 2026)
+                rows = [(datetime.date(y, 1, 1), gen.month_end(y, 12), [gen.month_end(y, 12), gen.month_end(y + 1, 12)])]
+                skel = skel_from_rows(rng, [(m, rows) for m in metas], kind)
+            else:
+                skel = regular_skel(rng, kind, n_slices=rng.choice([1, 2]), n_periods=rng.choice([1, 2]), n_lags=rng.choice([1, 2]))
+            M = 1 if variant == "single-weight-1" else rng.choice([2, 3])
+            S = rng.choice([3, 5])
+            zero = {"scalar-0": 0, "scalar-0.0": 0.0}.get(variant)
+            vals = [[{"paid_loss": (np.zeros(S) if variant == "zero-arrays" else
+                                    np.array([gen.dyadic(rng) for _ in range(S)])),
+                      "reported_claims": (zero if zero is not None else
+                                          np.zeros(S, dtype=np.int64) if variant == "zero-arrays" else 0)}
+                     for _ in skel] for _ in range(M)]
+            if M == 1:
+                weights, wform = rng.choice([[1], [1.0], {"x": 1}, {"x": [1.0]}]), "single"
+            elif variant == "weights-int-0":
+                w = [0] * M
+                w[rng.randrange(M)] = 1
+                weights, wform = rng.choice([w, {k: x for k, x in zip(dict_keys(rng, M), w)}]), "int-onehot"
+            else:
+                cols = [zero_vector(rng, M, "leading") if M >= 3 else rng.choice([[0.0, 1.0], [1.0, 0.0], [0.5, 0.5]])
+                        for _ in skel]
+                weights, wform = weights_from_cols(rng, cols, rng.choice(["list", "dict-global"]), M, len(skel))
+                if wform != "dict-percell":
+                    cols = [cols[0]] * len(skel)
+            deg = None
+            if method == "mixture" and M > 1 and isinstance(weights, list) and sorted(weights) == [0] * (M - 1) + [1]:
+                deg = weights.index(1)
+            out.append(assemble(rng, kind, skel, M, method, vals, S, weights, wform, 0 if method == "mixture" else None,
+                                ["falsy", "falsy-" + variant], degenerate=deg))
+    # unequal scalars one of which is 0 / 0.0 (named refusal): a, 0, a — a, a, 0 — 0, a, a
+    for pattern in ((7, 0, 7), (7, 7, 0), (0, 7, 7), (2.5, 0.0, 2.5)):
+        kind = rng.choice(["C", "U", "I"])
+        skel = regular_skel(rng, kind, n_periods=rng.choice([1, 2]), n_lags=1)
+        vals = [[{"paid_loss": np.array([gen.dyadic(rng) for _ in range(3)]), "open_claims": pattern[j]} for _ in skel]
+                for j in range(3)]
+        c = assemble(rng, kind, skel, 3, "mixture", vals, 3, rng.choice([None, [0.25, 0.25, 0.5]]), "list", 0,
+                     ["falsy", "falsy-scalar-unequal-zero"], convex=False)
+        c["refusal"] = "scalar-unequal"
+        out.append(c)
+    return out
+
+
+def lesson_cases(rng, reps):
+    out = []
+    for _ in range(reps):
+        for g in (large_cases, overlap_cases, midmonth_cases, late_cases, options_cases, twin_cases, derived_cases,
+                  falsy_cases):
+            out += g(rng)
+    return out
 
 
 def recomputed(cells):
@@ -441,6 +833,110 @@ def close_cells(a, b, tol):
     return True
 
 
+def expected_ps(weights, M):
+    """the weight vectors `np.random.choice` may legitimately be called with: 1/M, the list, or a column of the
+    stacked dict values (None if the weights argument is not of a blendable form)"""
+    if weights is None:
+        return [[Fraction(1, M)] * M]
+    if isinstance(weights, list):
+        return [[Fraction(x) for x in weights]]
+    if isinstance(weights, dict):
+        rows = []
+        for v in weights.values():
+            rows += np.atleast_2d(np.asarray(v, dtype=float)).tolist()
+        if not rows or len({len(r) for r in rows}) != 1:
+            return None
+        return [[Fraction(r[i]) for r in rows] for i in range(len(rows[0]))]
+    return None
+
+
+def run_one(ctx, rng, stream, case, ci, reqs, infos):
+    case.setdefault("omit_defaults", rng.random() < 0.3)
+    via = rng.random() < 0.3
+    tris, res, rec = run_impl(case, via, tris=case.get("inner"))
+    d = dump(res)
+    draws, clash = rec.table()
+    inexact = case["base_method"] == "linear" and case["weights"] is None and case["M"] & (case["M"] - 1) != 0
+    wire_ts = [w_cells(t.cells) for t in tris]
+    req = {"op": "blend", "ts": wire_ts, "w": w_weights(case["weights"]), "method": case["method"],
+           "draws": draws, "tol": w_rat(TOL) if inexact else "0", "impl": d.get("ok"),
+           "convex": bool(case["convex"] and case["refusal"] is None),
+           "agree": bool(case["agree"]), "degenerate": case["degenerate"]}
+    digest = json.dumps({k: v for k, v in req.items() if k not in ("impl", "draws")}, sort_keys=True)
+    ctx.case(digest=digest, nontrivial=case["n"] >= 1,
+             sample={"stream": stream, "M": case["M"], "cells": case["n"], "method": case["method"],
+                     "weights": case["wform"], "kind": case["kind"], "S": case["S"]} if ci < 3 else None)
+    ctx.count(f"stream/{stream}")
+    for tag in case.get("tags", ()):
+        ctx.count(f"lesson/{tag}")
+    if case["S"] >= 40:
+        ctx.count("samples>=40")
+    if case["weights"] is not None and case["seed"] is not None and not case["omit_defaults"]:
+        ctx.count("options/all-given")
+    if case["weights"] is None and case["seed"] is None and case["method"] == "mixture" and case["omit_defaults"]:
+        ctx.count("options/none-given")
+    ctx.count(f"method/{case['base_method']}")
+    ctx.count(f"M/{case['M']}")
+    ctx.count(f"weights/{case['wform']}")
+    ctx.count(f"kind/{case['kind']}")
+    ctx.count(f"slices/{len({json.dumps(c['m'], sort_keys=True) for c in wire_ts[0]})}")
+    ctx.count("result/" + ("ok" if "ok" in d else d["err"]))
+    if case["refusal"]:
+        ctx.count(f"refusal/{case['refusal']}")
+    shown = {"ts": wire_ts, "weights": req["w"], "method": case["method"], "seed": case["seed"],
+             "via_Triangle.blend": via, "as_list": case["as_list"]}
+
+    # refusals named by the property must raise (whatever the class)
+    if case["refusal"] in NAMED and "ok" in d:
+        ctx.fail(f"refusal clause: inputs with {case['refusal']} mismatch were blended", shown, {"impl": d})
+    if case["refusal"] == "fields" and "ok" in d:
+        ctx.fail("same-field-set clause: cells with different field sets were blended", shown, {"impl": d})
+    if stream == "single-dict" and "err" in d and case["refusal"] is None:
+        ctx.fail("a single triangle with dict weights is refused (D17 recurrence)", shown, {"impl": d})
+
+    if res[0] == "ok" and case["base_method"] == "mixture" and rec.calls:
+        # "the choice follows the weights" at the RNG interface: every index vector is drawn with p = the weight
+        # vector of a cell (1/M without weights). Which cell is settled by the model comparison of seeded cases.
+        exp = expected_ps(case["weights"], case["M"])
+        if exp is not None:
+            for S_, p_, _ in rec.calls:
+                if not any(len(e) == len(p_) and all(abs(Fraction(a) - b) <= TOL for a, b in zip(p_, e)) for e in exp):
+                    ctx.fail("mixture: np.random.choice was called with probabilities that are not the weights of any cell",
+                             shown, {"p": p_, "size": S_})
+                    break
+            ctx.count("checked/choice-p-is-weights")
+    if not rec.inputs_untouched:
+        ctx.fail("blend changed the derived accessors (num_samples / fields / slices / periods) of an INPUT", shown)
+    if res[0] == "ok":
+        a, r = accessors(res[1]), recomputed(res[1].cells)
+        ctx.count("sequence/accessors-checked")
+        if a != r:
+            ctx.fail("num_samples / fields / slices / periods of the blend disagree with its own cells", shown,
+                     {"accessors": a, "recomputed_from_cells": r})
+    # SEQUENCE: ruin the first result in place, call again on the SAME objects: same dump (mixture: same seed)
+    if "ok" in d and not (case["base_method"] == "mixture" and case["seed"] is None):
+        for c in res[1].cells:
+            for v in c.values.values():
+                if isinstance(v, np.ndarray) and v.flags.writeable:
+                    v *= 0
+        _, res2, rec2 = run_impl(case, via, tris=tris)
+        if dump(res2) != d:
+            ctx.fail("second call on the same inputs (same seed) differs from the first", shown,
+                     {"first": d, "second": dump(res2)})
+        ctx.count("checked/called-twice")
+    if clash and case["seed"] is not None:
+        ctx.disagree("np.random.choice: same seed, size and p gave two different vectors", shown)
+
+    if not case["as_list"]:
+        # `triangles` must be a list: Python-only clause (the model has no tuple of triangles)
+        if d != {"err": "TypeError"}:
+            ctx.disagree("blend(tuple of triangles) should raise TypeError", shown, "TypeError", d)
+        return
+    reqs.append(req)
+    infos.append((case, d, shown, inexact))
+
+
+
 def correspondence(ctx):
     rng = ctx.rng
     n_cases = 6000 if ctx.thorough else 420
@@ -449,70 +945,11 @@ def correspondence(ctx):
     for ci in range(n_cases):
         stream = rng.choice(streams)
         case = sequence_case(rng) if stream == "sequence" else one_case(rng, stream)
-        case["omit_defaults"] = rng.random() < 0.3
-        via = rng.random() < 0.3
-        tris, res, rec = run_impl(case, via, tris=case.get("inner"))
-        d = dump(res)
-        draws, clash = rec.table()
-        inexact = case["base_method"] == "linear" and case["weights"] is None and case["M"] == 3
-        wire_ts = [w_cells(t.cells) for t in tris]
-        req = {"op": "blend", "ts": wire_ts, "w": w_weights(case["weights"]), "method": case["method"],
-               "draws": draws, "tol": w_rat(TOL) if inexact else "0", "impl": d.get("ok"),
-               "convex": bool(case["convex"] and case["refusal"] is None),
-               "agree": bool(case["agree"]), "degenerate": case["degenerate"]}
-        digest = json.dumps({k: v for k, v in req.items() if k not in ("impl", "draws")}, sort_keys=True)
-        ctx.case(digest=digest, nontrivial=case["n"] >= 1,
-                 sample={"stream": stream, "M": case["M"], "cells": case["n"], "method": case["method"],
-                         "weights": case["wform"], "kind": case["kind"], "S": case["S"]} if ci < 3 else None)
-        ctx.count(f"stream/{stream}")
-        ctx.count(f"method/{case['base_method']}")
-        ctx.count(f"M/{case['M']}")
-        ctx.count(f"weights/{case['wform']}")
-        ctx.count(f"kind/{case['kind']}")
-        ctx.count(f"slices/{len({json.dumps(c['m'], sort_keys=True) for c in wire_ts[0]})}")
-        ctx.count("result/" + ("ok" if "ok" in d else d["err"]))
-        if case["refusal"]:
-            ctx.count(f"refusal/{case['refusal']}")
-        shown = {"ts": wire_ts, "weights": req["w"], "method": case["method"], "seed": case["seed"],
-                 "via_Triangle.blend": via, "as_list": case["as_list"]}
-
-        # refusals named by the property must raise (whatever the class)
-        if case["refusal"] in NAMED and "ok" in d:
-            ctx.fail(f"refusal clause: inputs with {case['refusal']} mismatch were blended", shown, {"impl": d})
-        if case["refusal"] == "fields" and "ok" in d:
-            ctx.fail("same-field-set clause: cells with different field sets were blended", shown, {"impl": d})
-        if stream == "single-dict" and "err" in d and case["refusal"] is None:
-            ctx.fail("a single triangle with dict weights is refused (D17 recurrence)", shown, {"impl": d})
-
-        if not rec.inputs_untouched:
-            ctx.fail("blend changed the derived accessors (num_samples / fields / slices / periods) of an INPUT", shown)
-        if res[0] == "ok":
-            a, r = accessors(res[1]), recomputed(res[1].cells)
-            ctx.count("sequence/accessors-checked")
-            if a != r:
-                ctx.fail("num_samples / fields / slices / periods of the blend disagree with its own cells", shown,
-                         {"accessors": a, "recomputed_from_cells": r})
-        # SEQUENCE: ruin the first result in place, call again on the SAME objects: same dump (mixture: same seed)
-        if "ok" in d and not (case["base_method"] == "mixture" and case["seed"] is None):
-            for c in res[1].cells:
-                for v in c.values.values():
-                    if isinstance(v, np.ndarray) and v.flags.writeable:
-                        v *= 0
-            _, res2, rec2 = run_impl(case, via, tris=tris)
-            if dump(res2) != d:
-                ctx.fail("second call on the same inputs (same seed) differs from the first", shown,
-                         {"first": d, "second": dump(res2)})
-            ctx.count("checked/called-twice")
-        if clash and case["seed"] is not None:
-            ctx.disagree("np.random.choice: same seed, size and p gave two different vectors", shown)
-
-        if not case["as_list"]:
-            # `triangles` must be a list: Python-only clause (the model has no tuple of triangles)
-            if d != {"err": "TypeError"}:
-                ctx.disagree("blend(tuple of triangles) should raise TypeError", shown, "TypeError", d)
-            continue
-        reqs.append(req)
-        infos.append((case, d, shown, inexact))
+        run_one(ctx, rng, stream, case, ci, reqs, infos)
+    # the eight generator lessons of seeded batch 4: a fixed quota of each input kind in EVERY run
+    reps = 0 if os.environ.get("VERIF_SKIP_LESSONS") else 6 if ctx.thorough else 1     # (knob for mutation experiments)
+    for k, case in enumerate(lesson_cases(rng, reps)):
+        run_one(ctx, rng, case["tags"][0], case, n_cases + k, reqs, infos)
 
     outs = common.Driver("drv_c16").run(reqs)
     for (case, d, shown, inexact), req, out in zip(infos, reqs, outs):
@@ -556,16 +993,30 @@ if __name__ == "__main__":
              "after zeroing the first result's arrays; accessors num_samples/fields/slices/periods read on inputs "
              "beforehand and compared on the output with values recomputed from its cells; default arguments left "
              "out in 30 % of the calls), 21 refusal causes one at a time (incl. incremental triangles differing only in one "
-             "prev_evaluation_date). distinct = distinct canonical request; non-trivial = at "
-             "least one cell",
+             "prev_evaluation_date). LESSON streams (fixed quota in every run, 78 cases): large (sample counts 40 / 256 / 1000 "
+             "and 80/255/257/4096 for both methods, linear also with weights that do not sum to 1; 234-320 cells with "
+             "per-cell weights); overlap (cells of one slice sharing period_start or period_end and the evaluation date); "
+             "mid-month (half-month periods evaluated on the 15th and at month ends: equal month ids); zero-weights (3-5 "
+             "triangles, exact zeros in leading / middle / trailing / several positions with >= 2 positive weights, both "
+             "methods, list / global dict / per-cell dict whose zero moves from cell to cell, linear also on mixed scalar-"
+             "sample fields); late (only the LAST of 4-5 triangles differs in values; named refusals caused by the LAST of "
+             "4-5 triangles incl. a LONGER last triangle, another cell class after C / U / I, prev_evaluation_date, scalars "
+             "a,a,b,b); options (weights + method + seed all given; none given); twin (A-triangles then B-triangles with the "
+             "same coordinates, kinds, sizes, weights, method and seed but other values); derived (parents' cached accessors "
+             "read and parents blended, inputs = select / filter / clip / slice / derive_fields of them, default arguments); "
+             "falsy (scalar 0 / 0.0 and all-zero arrays in every cell of every triangle, int 0/1 weights, [1] for a single "
+             "triangle, seed 0, limit 0 and falsy details in every slice, unequal scalars one of which is 0). distinct = "
+             "distinct canonical request; non-trivial = at least one cell",
         assumptions=[
             "OUTSIDE THE MODEL: numpy's legacy RNG (np.random.seed/choice). The drawn index vectors are recorded "
             "in-process and handed to the model as a parameter; 'the choice follows the weights' is statistical and "
-            "is NOT checked except for degenerate weights e_j (output must be input j exactly)",
+            "is NOT checked except for degenerate weights e_j (output must be input j exactly) and at the RNG "
+            "interface: every recorded np.random.choice call of a successful mixture blend must carry p = the weight "
+            "vector of some cell (1/M without weights), within 2^-40",
             "seed reproducibility is observed by calling twice, not proved",
             "values are None, Python int/float or 1-D arrays; integers below 2^12 and dyadic rationals with 3 "
             "fractional bits, dyadic weights with <= 4 bits: float64 arithmetic of the matrix product is exact and is "
-            "compared exactly; only weights=None with 3 inputs (1/3) is compared with relative tolerance 2^-40",
+            "compared exactly; only weights=None with 3 or 5 inputs (1/3, 1/5) is compared with relative tolerance 2^-40",
             "mixture weights are generated with sum exactly 1 or off by >= 2^-10 (numpy accepts |sum-1| <= 2^-26)",
             "field order of the output dict follows Python's set order and is not compared",
             "blend(non-list) -> TypeError is checked in Python only",
